@@ -5,11 +5,13 @@ import re
 from pathlib import Path
 
 import stage_ana
+import stage_corpus
 import stage_det
 import stage_disc
 import stage_doc
 import stage_e2e
 import stage_gen
+import stage_layout
 import stage_meta
 import stage_names
 import stage_types
@@ -27,7 +29,7 @@ def theorems_of(module: str, only: list[str] | None = None) -> list[str]:
     return [prefix + n for n in names if only is None or n in only]
 
 
-ANALYSER_PARTS = {"C04": "C04a", "C05": "C05a", "C06": "C06a", "C07": "C07a", "C15": "C15a", "C13": "C13a", "C03": "C03a"}
+ANALYSER_PARTS = {"C04": "C04a", "C05": "C05a", "C06": "C06a", "C07": "C07a", "C15": "C15a", "C13": "C13a", "C03": "C03a", "C02": "C02a"}
 """second theorem file of a property: the analyser half (mypy nodes -> API model)"""
 
 
@@ -37,7 +39,7 @@ def spec(prop: str, stages, extra_modules=(), extra_theorems=(), only=None):
     if prop in ANALYSER_PARTS:
         mods.append(f"StubGen.Theorems.{ANALYSER_PARTS[prop]}")
         thms += theorems_of(f"StubGen.Theorems.{ANALYSER_PARTS[prop]}")
-    return {"modules": mods, "theorems": thms, "stages": stages}
+    return {"modules": mods, "theorems": thms, "stages": [stage_corpus.run, *stages]}
 
 
 T = "StubGen.Theorems.Tables"
@@ -54,7 +56,7 @@ PROPS = {
     "C07": spec("C07", [stage_gen.run, stage_ana.run, stage_e2e.run]),
     "C08": spec("C08", [stage_det.run, stage_disc.run, stage_ana.run, stage_gen.run]),
     "C09": spec("C09", [stage_names.run, stage_gen.run, stage_e2e.run], [T], ["StubGen.Tables.name_annotation_form"]),
-    "C10": spec("C10", [stage_gen.run, stage_e2e.run]),
+    "C10": spec("C10", [stage_gen.run, stage_e2e.run, stage_layout.run]),
     "C11": spec("C11", [stage_gen.run, stage_e2e.run]),
     "C18": spec("C18", [stage_meta.run, stage_gen.run]),
     "C12": spec("C12", [stage_ana.run, stage_e2e.run]),
